@@ -7,7 +7,8 @@
 // that routes values through `locals` and the collection functions), writes .yaml, .yml and two .hcl files on an
 // in-memory file system and runs the real config.ReadAmmoConfig on each.
 //
-// Observation:  y=<dump|err> yml=<=|dump|err> h=<=|dump|err> hl=<=|dump|err>
+// Observation:  y=<dump|err> yml=<=|dump|err> h=<=|dump|err> hl=<=|dump|err> e=<=|dump|err>
+// (e: the description after an edit, written over the same .yaml/.hcl files: its HCL reading against its YAML reading)
 // (`=`: identical to the .yaml result; dumps are canonical renderings of the whole AmmoConfig with every
 // plugin instance opened: registered name + the fields of its config).
 package main
@@ -154,6 +155,7 @@ type hclCtx struct {
 	first     []string // decoy definitions: first block only
 	second    []string // the definitions that shadow the decoys: second block only
 	n         int
+	usedFns   map[string]int
 }
 
 func (c *hclCtx) local(expr string) string {
@@ -176,16 +178,31 @@ func (c *hclCtx) local(expr string) string {
 	return "local." + name
 }
 
+// Every function the HCL context registers (hcl.go buildHclContext) is used by the locals variant, with
+// arguments chosen so that the expression denotes exactly the described value and a wrongly bound function
+// would denote another one (empty lists first, decoys around the wanted element, ...).
+var hclFunctions = []string{"coalesce", "coalescelist", "compact", "concat", "distinct", "element", "flatten", "index",
+	"keys", "lookup", "merge", "reverse", "slice", "sort", "split", "values", "zipmap"}
+
+func (c *hclCtx) used(fn string) { c.usedFns[fn]++ }
+
 func (c *hclCtx) str(x string) string {
 	if !c.useLocals || c.r.Intn(3) != 0 {
 		return hq(x)
 	}
-	switch c.r.Intn(3) {
+	switch c.r.Intn(8) {
+	case 7:
+		// cty's index(collection, key): the element under the key
+		c.used("index")
+		if c.r.Bool() {
+			return `index(["decoy-a", ` + hq(x) + `, "decoy-b"], 1)`
+		}
+		return `index(` + c.local(`["decoy-a", "decoy-b", `+hq(x)+`]`) + `, 2)`
 	case 0:
 		return c.local(hq(x))
 	case 1:
 		return `"${` + c.local(hq(x)) + `}"`
-	default:
+	case 2:
 		// split in two and interpolate the second half
 		h := len(x) / 2
 		for h > 0 && !utf8.RuneStart(x[h]) {
@@ -195,29 +212,160 @@ func (c *hclCtx) str(x string) string {
 			return c.local(hq(x))
 		}
 		return hq(x[:h])[:len(hq(x[:h]))-1] + `${` + c.local(hq(x[h:])) + `}"`
+	case 3:
+		c.used("element")
+		if c.r.Bool() {
+			return `element(["decoy-a", ` + hq(x) + `, "decoy-b"], 1)`
+		}
+		return `element(` + c.local(`["decoy-a", "decoy-b", `+hq(x)+`]`) + `, 5)` // wraps around: 5 mod 3 = 2
+	case 4:
+		c.used("lookup")
+		if c.r.Bool() {
+			return `lookup({"wanted" = ` + hq(x) + `, "other" = "decoy"}, "wanted", "default-decoy")`
+		}
+		return `lookup({"other" = "decoy"}, "wanted", ` + hq(x) + `)`
+	case 5:
+		c.used("coalesce")
+		if c.r.Bool() {
+			return `coalesce(null, ` + hq(x) + `, "decoy")`
+		}
+		return `coalesce(` + c.local(hq(x)) + `, "decoy")`
+	default:
+		c.used("values")
+		return `element(values({"a" = ` + hq(x) + `, "b" = "decoy"}), 0)`
 	}
+}
+
+func quoteAll(items []string) []string {
+	out := make([]string, 0, len(items))
+	for _, x := range items {
+		out = append(out, hq(x))
+	}
+	return out
+}
+
+func tuple(items []string) string { return "[" + strings.Join(quoteAll(items), ", ") + "]" }
+
+func isSortedDistinct(items []string) bool {
+	for i := 1; i < len(items); i++ {
+		if !(items[i-1] < items[i]) {
+			return false
+		}
+	}
+	return true
 }
 
 func (c *hclCtx) strList(v *s.V) string {
 	items := make([]string, 0, len(v.L))
 	for _, x := range v.L {
-		items = append(items, hq(x.S))
+		items = append(items, x.S)
 	}
-	plain := "[" + strings.Join(items, ", ") + "]"
-	if !c.useLocals || len(items) == 0 || c.r.Intn(2) != 0 {
+	plain := tuple(items)
+	if !c.useLocals || c.r.Intn(2) != 0 {
 		return plain
 	}
-	switch c.r.Intn(4) {
-	case 0:
-		h := len(items) / 2
-		return "concat(" + c.local("["+strings.Join(items[:h], ", ")+"]") + ", [" + strings.Join(items[h:], ", ") + "])"
-	case 1:
-		return "reverse(reverse(" + c.local(plain) + "))"
-	case 2:
-		return "flatten([" + c.local(plain) + "])"
-	default:
-		return "slice(" + plain + ", 0, " + strconv.Itoa(len(items)) + ")"
+	n := len(items)
+	hasEmpty, hasComma, distinct := false, false, true
+	seen := map[string]bool{}
+	for _, x := range items {
+		if x == "" {
+			hasEmpty = true
+		}
+		if strings.Contains(x, ",") {
+			hasComma = true
+		}
+		if seen[x] {
+			distinct = false
+		}
+		seen[x] = true
 	}
+	for try := 0; try < 6; try++ {
+		switch c.r.Intn(11) {
+		case 0:
+			if n == 0 {
+				continue
+			}
+			c.used("concat")
+			h := n / 2
+			return "concat(" + c.local(tuple(items[:h])) + ", " + tuple(items[h:]) + ")"
+		case 1:
+			c.used("reverse")
+			rev := make([]string, n)
+			for i, x := range items {
+				rev[n-1-i] = x
+			}
+			return "reverse(" + c.local(tuple(rev)) + ")"
+		case 2:
+			if n == 0 {
+				continue
+			}
+			c.used("flatten")
+			h := (n + 1) / 2
+			return "flatten([" + tuple(items[:h]) + ", [" + tuple(items[h:]) + "]])"
+		case 3:
+			c.used("slice")
+			return "slice(" + tuple(append(append([]string{"decoy-head"}, items...), "decoy-tail")) + ", 1, " + strconv.Itoa(n+1) + ")"
+		case 4:
+			if n == 0 {
+				continue
+			}
+			c.used("coalescelist")
+			if c.r.Bool() {
+				return "coalescelist([], " + c.local(plain) + `, ["decoy"])` // the empty list must be skipped
+			}
+			return "coalescelist(" + plain + `, ["decoy"])`
+		case 5:
+			if n == 0 || hasEmpty {
+				continue
+			}
+			c.used("compact")
+			with := append(append([]string{""}, items...), "")
+			return "compact(" + tuple(with) + ")"
+		case 6:
+			if n == 0 || !distinct {
+				continue
+			}
+			c.used("distinct")
+			return "distinct(" + tuple(append(append([]string{}, items...), items[0], items[n-1])) + ")"
+		case 7:
+			if n < 2 || !isSortedDistinct(items) {
+				continue
+			}
+			c.used("sort")
+			rev := make([]string, n)
+			for i, x := range items {
+				rev[n-1-i] = x
+			}
+			return "sort(" + tuple(rev) + ")"
+		case 8:
+			if n == 0 || hasComma {
+				continue
+			}
+			c.used("split")
+			return "split(\",\", " + hq(strings.Join(items, ",")) + ")"
+		case 9:
+			if n == 0 || n > 9 {
+				continue
+			}
+			c.used("values")
+			var kv []string
+			for i := n - 1; i >= 0; i-- { // written in reverse: values() orders by key
+				kv = append(kv, hq("k"+strconv.Itoa(i))+" = "+hq(items[i]))
+			}
+			return "values({" + strings.Join(kv, ", ") + "})"
+		default:
+			if n == 0 || !isSortedDistinct(items) {
+				continue
+			}
+			c.used("keys")
+			var kv []string
+			for i := n - 1; i >= 0; i-- {
+				kv = append(kv, hq(items[i])+" = \"v\"")
+			}
+			return "keys({" + strings.Join(kv, ", ") + "})"
+		}
+	}
+	return plain
 }
 
 func objOf(kvs []s.KV) string {
@@ -233,17 +381,24 @@ func (c *hclCtx) strMap(v *s.V) string {
 	if !c.useLocals || len(v.M) == 0 || c.r.Intn(2) != 0 {
 		return plain
 	}
-	switch c.r.Intn(3) {
+	switch c.r.Intn(4) {
 	case 0:
+		c.used("merge")
 		h := len(v.M) / 2
 		return "merge(" + c.local(objOf(v.M[:h])) + ", " + objOf(v.M[h:]) + ")"
 	case 1:
+		// a later argument of merge overrides an earlier one
+		c.used("merge")
+		decoy := []s.KV{{Key: v.M[0].Key, Val: s.Str("decoy")}}
+		return "merge(" + objOf(decoy) + ", " + c.local(plain) + ")"
+	case 2:
+		c.used("zipmap")
 		var ks, vs []string
 		for _, kv := range v.M {
-			ks = append(ks, hq(kv.Key))
-			vs = append(vs, hq(kv.Val.S))
+			ks = append(ks, kv.Key)
+			vs = append(vs, kv.Val.S)
 		}
-		return "zipmap(" + c.local("["+strings.Join(ks, ", ")+"]") + ", [" + strings.Join(vs, ", ") + "])"
+		return "zipmap(" + c.local(tuple(ks)) + ", " + tuple(vs) + ")"
 	default:
 		return c.local(plain)
 	}
@@ -280,8 +435,11 @@ func label(v *s.V, key string) string {
 	return `""`
 }
 
+// fnUse counts how often each HCL function was used by the printers of this process
+var fnUse = map[string]int{}
+
 func toHCL(v *s.V, useLocals bool, r *vh.Rand) string {
-	c := &hclCtx{useLocals: useLocals, r: r}
+	c := &hclCtx{useLocals: useLocals, r: r, usedFns: fnUse}
 	var b strings.Builder
 	for _, src := range listOf(v.Get("variable_sources")) {
 		fmt.Fprintf(&b, "variable_source %s %s {\n", label(src, "name"), label(src, "type"))
@@ -570,16 +728,16 @@ type runner struct {
 	count int
 }
 
+// Every rendering is written under ONE file name per extension: the files are re-written between reads, as a user
+// editing his scenario would do, so nothing may be remembered per file name.
 func (rn *runner) read(text, ext string) (res string) {
 	defer func() {
 		if r := recover(); r != nil {
 			res = "panic"
 		}
 	}()
-	rn.count++
-	name := fmt.Sprintf("/a16scn/case%d%s", rn.count, ext)
+	name := "/a16scn/scenario" + ext
 	afero.WriteFile(s.Fs, name, []byte(text), 0o644)
-	defer s.Fs.Remove(name)
 	cfg, err := scnconfig.ReadAmmoConfig(s.Fs, name)
 	if err != nil {
 		if os.Getenv("A16_DEBUG") != "" {
@@ -588,6 +746,20 @@ func (rn *runner) read(text, ext string) (res string) {
 		return "err"
 	}
 	return rn.lab.DumpDetailed(rn.node, reflect.ValueOf(cfg).Elem())
+}
+
+// the description after an edit: one more scenario at the end
+func edited(tree *s.V) *s.V {
+	c := tree.Clone()
+	extra := s.Map(s.KV{"name", s.Str("added by the edit")}, s.KV{"requests", s.List()})
+	for i, kv := range c.M {
+		if kv.Key == "scenarios" && kv.Val.K == 'l' {
+			c.M[i].Val.L = append(c.M[i].Val.L, extra)
+			return c
+		}
+	}
+	c.M = append(c.M, s.KV{"scenarios", s.List(extra)})
+	return c
 }
 
 func same(a, ref string) string {
@@ -610,6 +782,11 @@ func run(cases []string) []string {
 	sort.Strings(ifaces)
 	rn := &runner{reg: reg, lab: s.NewLabeler(reg, ifaces...), node: node}
 	out := make([]string, 0, len(cases))
+	defer func() {
+		if os.Getenv("A16_DEBUG") != "" {
+			fmt.Fprintln(os.Stderr, "HCL functions used:", fnUse)
+		}
+	}()
 	for i, c := range cases {
 		f := strings.Split(c, " ")
 		if len(f) != 2 || f[0] != "scn" {
@@ -626,8 +803,16 @@ func run(cases []string) []string {
 		ry := rn.read(y, ".yaml")
 		ryml := rn.read(y, ".yml")
 		rh := rn.read(toHCL(tree, false, r), ".hcl")
-		rhl := rn.read(toHCL(tree, true, r), ".hcl")
-		out = append(out, fmt.Sprintf("y=%s yml=%s h=%s hl=%s", ry, same(ryml, ry), same(rh, ry), same(rhl, ry)))
+		hlText := toHCL(tree, true, r)
+		rhl := rn.read(hlText, ".hcl")
+		if rhl != ry && os.Getenv("A16_DEBUG") != "" {
+			fmt.Fprintln(os.Stderr, "---- locals variant differs:\n"+hlText)
+		}
+		// the edited description, under the same file names, right after the original
+		ed := edited(tree)
+		rey := rn.read(toYAML(ed), ".yaml")
+		reh := rn.read(toHCL(ed, false, r), ".hcl")
+		out = append(out, fmt.Sprintf("y=%s yml=%s h=%s hl=%s e=%s", ry, same(ryml, ry), same(rh, ry), same(rhl, ry), same(reh, rey)))
 	}
 	return out
 }
